@@ -129,6 +129,82 @@ def _replay_r1(n, i, j, vals, exact: bool):
     return answers[i] and answers[j], answers
 
 
+POS = r'''
+from datetime import UTC, datetime, timedelta
+from engine.hsupport import *
+from pynenc.orchestrator.atomic_service import ActiveRunnerInfo, calculate_runner_position, can_run_atomic_service
+LAST_DETAIL = None
+T0 = datetime(2024, 1, 1, tzinfo=UTC)
+
+def positions(n, offs, perm):
+    """n runners with distinct ids and creation times T0 + offs[i] seconds (ties allowed), listed in the order a backend may return them"""
+    global LAST_DETAIL
+    order = [[0, 1, 2, 3], [1, 0, 3, 2], [3, 2, 1, 0], [2, 3, 0, 1]][perm][:4]
+    order = [i for i in order if i < n]
+    runners = [ActiveRunnerInfo(f"runner-{i}", T0 + timedelta(seconds=offs[i]), T0) for i in order]
+    pos = [calculate_runner_position(r.runner_id, runners) for r in runners]
+    LAST_DETAIL = {"creation_offsets": [offs[i] for i in order], "positions": pos}
+    if sorted(p for p in pos if p is not None) != list(range(n)) or len(pos) != n:
+        LAST_DETAIL["why"] = "C12:positions-are-not-a-permutation-of-the-slots"
+        return False
+    if calculate_runner_position("nobody", runners) is not None:
+        LAST_DETAIL["why"] = "C12:unknown-runner-gets-a-position"
+        return False
+    # end to end on a grid of instants of one cycle: never two authorised (6 min cycle, 1 min margin)
+    for k in range(0, 360, 7):
+        now = 1_700_000_000.0 - (1_700_000_000.0 % 360.0) + k + 0.5
+        auth = [r.runner_id for r in runners if can_run_atomic_service(r.runner_id, runners, now, 6.0, 1.0)]
+        if len(auth) > 1:
+            LAST_DETAIL["why"] = "C12:two-runners-authorised-at-one-instant"; LAST_DETAIL["instant"] = now; LAST_DETAIL["authorised"] = auth
+            return False
+    return True
+
+def runner_positions(n: int, o0: int, o1: int, o2: int, o3: int, perm: int) -> bool:
+    """
+    pre: 2 <= n <= 4 and 0 <= o0 <= 2 and 0 <= o1 <= 2 and 0 <= o2 <= 2 and 0 <= o3 <= 2 and 0 <= perm <= 3
+    post: _
+    """
+    n = pick(n, 2, 4); offs = [pick(o0, 0, 2), pick(o1, 0, 2), pick(o2, 0, 2), pick(o3, 0, 2)]; perm = pick(perm, 0, 3)
+    with NoTracing():
+        return positions(n, offs, perm)
+
+def positions_twin(n: int, o0: int, o1: int) -> bool:
+    """
+    pre: 2 <= n <= 4 and 0 <= o0 <= 2 and 0 <= o1 <= 2
+    post: _
+    """
+    runner_positions(n, o0, o1, 0, 0, 0)
+    return False
+
+def positions_canary(o0: int, o1: int, o2: int) -> bool:
+    """
+    pre: 0 <= o0 <= 2 and 0 <= o1 <= 2 and 0 <= o2 <= 2
+    post: _
+    """
+    # canary: a position defined as "number of runners created strictly earlier" must be refuted (ties share a slot)
+    import pynenc.orchestrator.atomic_service as A
+    orig = A.calculate_runner_position
+    def by_rank(runner_id, active_runners):
+        me = next((r for r in active_runners if r.runner_id == runner_id), None)
+        return None if me is None else sum(1 for r in active_runners if r.creation_time < me.creation_time)
+    A.calculate_runner_position = by_rank
+    g = globals()
+    old = g["calculate_runner_position"]; g["calculate_runner_position"] = by_rank
+    try:
+        offs = [pick(o0, 0, 2), pick(o1, 0, 2), pick(o2, 0, 2), 0]
+        with NoTracing():
+            return positions(3, offs, 0)
+    finally:
+        A.calculate_runner_position = orig; g["calculate_runner_position"] = old
+'''
+
+
+def _pos_key(args, kwargs, replay_out):
+    import re
+    m = re.search(r"'why': '([^']+)'", replay_out or "")
+    return m.group(1) if m else "C12:positions:unclassified"
+
+
 def run(ctx: Ctx) -> None:
     thorough = ctx.tier == "thorough"
     nreal = NMAX_REAL_T if thorough else NMAX_REAL_Q
@@ -231,10 +307,16 @@ def run(ctx: Ctx) -> None:
     ok_single = all(can_run_atomic_service("r0", _runners(1), float(t), 5.0, 1.0) for t in (0, 1, 299.9, 1e9))
     ctx.oblige("R4.single-runner-always", ok_single, "single active runner: concrete path of the real function (no symbolic branch)")
     ctx.traces_validated = _validate_translation(ctx)
+    # positions: the slot arithmetic above is per position; the runner -> position map must be one-to-one for ANY list
+    from engine.core import Cond
+    ctx.ch_batch("c12pos", POS, [Cond("runner_positions", "confirm", 600, keyfn=_pos_key), Cond("positions_twin", "refute", 60),
+                                  Cond("positions_canary", "refute", 120)])
+    funcs.add("calculate_runner_position (CrossHair: lists of 2-4 runners, creation times with ties, 4 list orders) + can_run_atomic_service end to end on an instant grid")
     ctx.functions_encoded += sorted(funcs)
     ctx.bounds = {
         "real": f"n = 2..{nreal}, all position pairs; I > 0, margin >= 0, instant >= 0 unbounded reals",
         "fp64": f"n = 2..{nfp}, all position pairs; 0.001 <= I <= 1e5 min, 0 <= margin <= 1e5 min, round-nearest-even, {fpt}s cap per query",
+        "positions": "2-4 runners with distinct ids, creation-time offsets 0..2 s each (ties included), 4 list orders: positions are a permutation of 0..n-1; 52 instants of a 6-minute cycle end to end",
         "obligations": "R1 disjoint windows, R2 separation >= margin when margin < slot (real), R3 non-empty window inside the cycle, R4 single runner, R5 authorised iff residue in documented window (real)",
     }
     ctx.stubs = ["t % cycle abstracted by a fresh residue r, 0 <= r < cycle (exact image of Python's float % for positive operands)",
